@@ -13,7 +13,7 @@
    CircuitGate block is left.  Level: partial (relative to the AssumedAndTested contracts). *)
 From Coq Require Import List Bool Arith String.
 Import ListNotations.
-From BQ Require Import wf.WfAst wf.State wf.Contracts wf.Abs wf.AbsThm wf.Run wf.Check wf.Spec wf.WfThm.
+From BQ Require Import wf.WfAst wf.State wf.Contracts wf.ContractsThm wf.Abs wf.AbsThm wf.Run wf.Check wf.Spec wf.WfThm.
 From BQ Require Import gen.Workflows.
 Local Open Scope nat_scope.
 
@@ -61,6 +61,33 @@ Theorem C01_full_from_contracts : forall (conc : Type) (alpha : conc -> astate)
   (forall x', c01_post (alpha x') = true -> preserved x') ->
   C01_workflow_preserves_full conc alpha cexec preserved.
 Proof. exact c01_full_from_contracts. Qed.
+
+(* ---- the contracts the theorems are relative to (one Hoare triple per leaf kind in wf/ContractsThm.v) ---- *)
+Theorem C01_contracts_classified : forall l, leaf_class l = ProvedElsewhere \/ leaf_class l = AssumedAndTested.
+Proof. exact leaf_class_total. Qed.
+
+(* search synthesis: a fresh circuit implementing data.target from native multi-qudit gates *)
+Theorem C01_contract_synthesis : forall c k g t p, g = LgDefault \/ g = LgModelMQ ->
+  triple c (LSynth k g t p) (fun s => ms s = MNone)
+  (fun s s' => mqn s' = true /\ sem s' = tgt s /\ dep s' = D0
+               /\ (many_model c = false -> nomany s' = true)
+               /\ (many_model c = false -> cn s = CReal -> cpl s' = true)).
+Proof. exact triple_synth. Qed.
+
+(* gate removal / rebase re-instantiate against data.target: semantics survives iff the target is still valid *)
+Theorem C01_contract_scan : forall c f t, triple c (LScan f t) (fun s => ms s = MNone)
+  (fun s s' => sem s' = (sem s && tgt s) /\ (mqn s = true -> mqn s' = true) /\ (sqn s = true -> sqn s' = true)
+               /\ (cpl s = true -> cpl s' = true) /\ (nomany s = true -> nomany s' = true) /\ dep s' = dep s).
+Proof. exact triple_scan. Qed.
+
+(* measurements: extracted, kept out while the circuit is rewritten, restored on final_mapping[q]; any
+   rewriting or re-mapping pass after the restoration disturbs them *)
+Theorem C01_contract_measurements : forall c,
+  triple c LExtractMeas (fun s => ms s = MIn) (fun s s' => ms s' = MOut /\ sem s' = sem s /\ msbad s' = msbad s)
+  /\ triple c LRestoreMeas (fun s => ms s = MOut) (fun s s' => ms s' = MBack /\ sem s' = sem s /\ msbad s' = msbad s)
+  /\ (forall l, In l [LApplyPlacement; LSabreRoute; LPamRoute; LFill; LGreedyPlace; LSabreLayout; LPamLayout; LSetModel] ->
+      triple c l (fun s => ms s = MBack) (fun s s' => msbad s' = true)).
+Proof. exact c01_contract_measurements. Qed.
 
 (* non-vacuity: a circuit configuration has an input WITH measurements, a 3-qudit gate, a barrier and a machine
    wider than the circuit whose run ends with the measurements restored; and every level occurs *)
